@@ -100,7 +100,7 @@ contract("CountMinSketch._parse_bytes", contexts=_CMS_ALL, properties=["C05", "C
                   ("inv", "inv_cms(self)")])
 
 contract("CountMinSketch.frombytes", kind="classmethod", contexts=["CountMinSketch", "CountMeanSketch", "CountMeanMinSketch"],
-         properties=["C05", "C06"],
+         properties=["C05", "C06", "C02"],
          params={"b": "bytes", "hash_function": "opt[hashfunc]"}, returns="obj:CountMinSketch",
          requires=[("has_footer", "len(b) >= 16"),
                    ("stored_geometry_usable", "le_bytes(b, len(b) - 16, 4) >= 1 and le_bytes(b, len(b) - 12, 4) >= 1"),
@@ -115,6 +115,30 @@ contract("CountMinSketch.frombytes", kind="classmethod", contexts=["CountMinSket
                    "mode_of(result) == default_mode(cls)"),
                   ("hash_function_kept_or_default",
                    "result._hash_function == (hash_function if hash_function is not None else default_fnv_1a)")])
+
+
+# the two tracking subclasses have their own frombytes (an extra argument, the class named explicitly)
+_CMS_FB_REQ = [("has_footer", "len(b) >= 16"),
+               ("stored_geometry_usable", "le_bytes(b, len(b) - 16, 4) >= 1 and le_bytes(b, len(b) - 12, 4) >= 1"),
+               ("cells_present", "len(b) >= 16 + 4 * le_bytes(b, len(b) - 16, 4) * le_bytes(b, len(b) - 12, 4)")]
+_CMS_FB_ENS = [("geometry", "cw(result) == le_bytes(b, len(b) - 16, 4) and cd(result) == le_bytes(b, len(b) - 12, 4)"),
+               ("elements_added", "ctotal(result) == i64_at(b, len(b) - 8)"),
+               ("cells", "len(result._bins) == cw(result) * cd(result) and "
+                         "all(result._bins[c] == i32_at(b, 4 * c) for c in range(0, cw(result) * cd(result)))"),
+               ("inv", "inv_cms(result)"),
+               ("answers_in_min_mode", "is_min_mode(result)"),
+               ("hash_function_kept_or_default",
+                "result._hash_function == (hash_function if hash_function is not None else default_fnv_1a)")]
+contract("HeavyHitters.frombytes", kind="classmethod", contexts=["HeavyHitters"], properties=["C05", "C17", "C02"],
+         params={"b": "bytes", "num_hitters": "int", "hash_function": "opt[hashfunc]"}, returns="obj:HeavyHitters",
+         requires=_CMS_FB_REQ, modifies=[],
+         ensures=_CMS_FB_ENS + [("table_limit_is_the_resupplied_one", "result._HeavyHitters__num_hitters == num_hitters"),
+                                ("empty_table", "len(result._HeavyHitters__top_x) == 0")])
+contract("StreamThreshold.frombytes", kind="classmethod", contexts=["StreamThreshold"], properties=["C05", "C17", "C02"],
+         params={"b": "bytes", "threshold": "int", "hash_function": "opt[hashfunc]"}, returns="obj:StreamThreshold",
+         requires=_CMS_FB_REQ, modifies=[],
+         ensures=_CMS_FB_ENS + [("threshold_is_the_resupplied_one", "result._StreamThreshold__threshold == threshold"),
+                                ("empty_table", "len(result._StreamThreshold__meets_threshold) == 0")])
 
 
 # ---- counting Bloom filter: the bodies are BloomFilter's, the cells are uint32 (C05, C06, C08) ---------------------------------
